@@ -20,6 +20,8 @@ from fractions import Fraction as F
 
 from .. import core
 from .. import c02_stub as S
+from .. import c02_co as CO
+from .. import c02_gray as GR
 
 PROP_FILES = [core.THEORIES / "C02" / "Props.v"]
 PREAMBLE = ("From SV Require Import C02.Decode.\nFrom Coq Require Import List ZArith QArith.\n"
@@ -707,7 +709,7 @@ def f7_witness():
 
 
 WITNESSES = {"F7_gt_centroids_scale_half.json": f7_witness, "F8_labels_scale_half.json": f8_witness, "F10_last_band.json": f10_witness,
-             "F11_resize_half.json": f11_witness}
+             "F11_resize_half.json": f11_witness, "F61_gt_match_eff_half.json": CO.f61_witness}
 
 
 def ensure_corpus():
@@ -980,10 +982,14 @@ def check(run: core.Run) -> int:
     run.notes.append(f"F8 state of the tree: LabelsReader preprocess flag = {fixed_f8} "
                      f"({'repaired' if fixed_f8 else 'as pinned: preprocessing skipped'})")
     check_f7(run, mods)
+    fixed_f61 = CO.detect_fixed_f61(mods)
+    run.notes.append(f"F61 state of the tree: FindInstancePeaksGroundTruth compares centroids and labelled instances "
+                     f"{'in one coordinate system (repaired)' if fixed_f61 else 'in MIXED coordinate systems when eff_scale != 1 (as pinned)'}")
 
-    cases = []
+    cases, co_cases = [], []
     for f in sorted((core.CORPUS / "C02").glob("*.json")):
-        cases.append(case_from_json(json.load(open(f))))
+        c = case_from_json(json.load(open(f)))
+        (co_cases if c["kind"] == "centroid_only" else cases).append(c)
     n_single, n_td, n_band = (420, 700, 80) if thorough else (60, 70, 10)
     n_gt = 200 if thorough else 20
     for i in range(n_single):
@@ -994,13 +1000,28 @@ def check(run: core.Run) -> int:
         cases.append(gen_topdown(run.rng, len(cases)))
     for i in range(n_gt):
         cases.append(gen_topdown_gt(run.rng, len(cases)))
+    for i in range(220 if thorough else 24):
+        co_cases.append(CO.gen_centroid_only(run.rng, len(cases) + len(co_cases)))
     disagreements, stats, _ = evaluate(run, cases, mods, fixed_f8, fixed_f7)
+    co_dis, co_stats = CO.evaluate(run, co_cases, mods, fixed_f61)
+    stats.update(co_stats)
+    run.obligation("correspondence: CentroidOnly.co_run (Coq, vm_compute) == real TopDownPredictor without a "
+                   "centered-instance model (CentroidCrop(return_crops=False) + FindInstancePeaksGroundTruth): centroids, "
+                   "centroid values, matched labelled instance, returned keypoints, NaN rows, eff_scale, content maps",
+                   co_dis == 0, f"{co_dis} cases disagree")
+    gray_cases = [GR.gen_gray(run.rng, len(cases) + len(co_cases) + i) for i in range(160 if thorough else 20)]
+    gr_dis, gr_stats = GR.evaluate(run, gray_cases, mods, fixed_f8)
+    stats.update(gr_stats)
+    run.obligation("correspondence: channel modes (is_rgb x 1-/3-channel frames) through the real SingleInstancePredictor with "
+                   "the blob stub == Decode.si_run (same decode chain) and CentroidOnly.net_channels (channels of the network "
+                   "input), both providers", gr_dis == 0, f"{gr_dis} cases disagree")
+    cases = cases + co_cases + gray_cases
     run.obligation("correspondence: Decode.run (Coq, vm_compute) == real predictors with the ramp stub "
                    "(coordinates, values, NaN pattern, instance order, network input shapes, content maps)",
                    disagreements == 0, f"{disagreements} cases disagree")
     dist = {}
     for c in cases:
-        for k in ("kind", "variant", "refinement", "band"):
+        for k in ("kind", "variant", "refinement", "band", "is_rgb", "channels"):
             key = f"{k}={c.get(k)}"
             dist[key] = dist.get(key, 0) + 1
         for k in ("scale", "scale_c", "scale_i", "os", "os_c", "os_i", "ms", "ms_c", "ms_i", "crop", "batch"):
@@ -1030,7 +1051,8 @@ def check(run: core.Run) -> int:
     run.assumptions += [
         "general position: every scaled coordinate at least 1/16 cell from the half-cell lattice; centroids of different "
         "animals at least 4 centroid-map cells apart; keypoints inside their animal's crop",
-        "3-channel frames with is_rgb=True (the ramp encodes x, y and the frame id in the three channels)",
+        "ramp-stub cases: 3-channel frames with is_rgb=True (the ramp encodes x, y and the frame id in the three channels); "
+        "is_rgb=False and 1-channel frames are exercised through the single-instance predictor with the blob stub (one node)",
         "with integral refinement the 5x5 patch lies inside the map (keypoints >= 2 cells from the grid border)",
     ]
     return run.finish()
@@ -1044,6 +1066,10 @@ def replay(run: core.Run, path: str) -> int:
     mods = (torch, OmegaConf, predictors)
     rep = json.load(open(path))
     c = case_from_json(rep["case"])
+    if c["kind"] == "centroid_only":
+        return CO.replay(run, c, mods)
+    if c["kind"] == "single_gray":
+        return GR.replay(run, c, mods, detect_fixed_f8(mods)[0])
     fixed_f8, _ = detect_fixed_f8(mods)
     fixed_f7 = detect_fixed_f7(mods)
     out = {}
